@@ -5,24 +5,541 @@ span ids, truthful error flags, parents.
 -/
 namespace Ebu.Bus
 
+def notObs : Ev → Bool
+  | .obs .. => false
+  | _ => true
+
+def isStartK : ObsKind → Bool
+  | .ps | .hs | .rs => true
+  | _ => false
+
+theorem obsStack_append (l₁ l₂ : List Ev) (st : List Nat) :
+    obsStack (l₁ ++ l₂) st = (obsStack l₁ st).bind (obsStack l₂) := by
+  induction l₁ generalizing st with
+  | nil => simp [obsStack]
+  | cons e l ih =>
+    cases e with
+    | obs d k id p ty f =>
+      cases k <;> simp only [List.cons_append, obsStack, ih]
+      all_goals (cases st <;> simp only [Option.bind_none]; split <;> simp)
+    | _ => simp [obsStack, ih]
+
+theorem obsStack_notObs (e : Ev) (h : notObs e = true) (l : List Ev) (st : List Nat) :
+    obsStack (e :: l) st = obsStack l st := by
+  cases e <;> simp_all [obsStack, notObs]
+
+theorem obsStarts_append (l₁ l₂ : List Ev) : obsStarts (l₁ ++ l₂) = obsStarts l₁ ++ obsStarts l₂ := by
+  simp [obsStarts, List.filterMap_append]
+
+theorem obsStarts_notObs (e : Ev) (h : notObs e = true) : obsStarts [e] = [] := by
+  cases e <;> simp_all [obsStarts, notObs]
+
+/-- a balanced trace segment using exactly span ids in `[a, b)`, increasing -/
+structure Seg (cfg : Config) (Q : Ev → Prop) (a : Nat) (l : List Ev) (b : Nat) : Prop where
+  bal : ∀ st, obsStack l st = some st
+  le : a ≤ b
+  sorted : (obsStarts l).Pairwise (· < ·)
+  bnd : ∀ id ∈ obsStarts l, a ≤ id ∧ id < b
+  all : ∀ e ∈ l, Q e
+  noobs : cfg.obs = false → ∀ e ∈ l, notObs e = true
+
+theorem Seg.nil {cfg Q a} : Seg cfg Q a [] a :=
+  ⟨fun _ => rfl, Nat.le_refl _, by simp [obsStarts], by simp [obsStarts], by simp, by simp⟩
+
+theorem Seg.append {cfg Q a b c l₁ l₂} (h₁ : Seg cfg Q a l₁ b) (h₂ : Seg cfg Q b l₂ c) :
+    Seg cfg Q a (l₁ ++ l₂) c where
+  bal st := by rw [obsStack_append, h₁.bal]; exact h₂.bal st
+  le := Nat.le_trans h₁.le h₂.le
+  sorted := by
+    rw [obsStarts_append, List.pairwise_append]
+    refine ⟨h₁.sorted, h₂.sorted, ?_⟩
+    intro x hx y hy
+    have := h₁.bnd x hx; have := h₂.bnd y hy; omega
+  bnd := by
+    intro id hid
+    rw [obsStarts_append, List.mem_append] at hid
+    have := h₁.le; have := h₂.le
+    rcases hid with h | h
+    · have := h₁.bnd id h; omega
+    · have := h₂.bnd id h; omega
+  all := by
+    intro e he
+    rcases List.mem_append.1 he with h | h
+    · exact h₁.all e h
+    · exact h₂.all e h
+  noobs := by
+    intro ho e he
+    rcases List.mem_append.1 he with h | h
+    · exact h₁.noobs ho e h
+    · exact h₂.noobs ho e h
+
+theorem Seg.mono {cfg Q Q' a b l} (h : Seg cfg Q a l b) (hq : ∀ e, Q e → Q' e) : Seg cfg Q' a l b :=
+  ⟨h.bal, h.le, h.sorted, h.bnd, fun e he => hq e (h.all e he), h.noobs⟩
+
+theorem Seg.single {cfg Q a} (e : Ev) (hn : notObs e = true) (hq : Q e) : Seg cfg Q a [e] a where
+  bal st := by rw [obsStack_notObs e hn]; rfl
+  le := Nat.le_refl _
+  sorted := by simp [obsStarts_notObs e hn]
+  bnd := by simp [obsStarts_notObs e hn]
+  all := by simpa using hq
+  noobs := by simpa using fun _ => hn
+
+theorem Seg.bracket {cfg : Config} {Q a b l} (ho : cfg.obs = true) (h : Seg cfg Q (a + 1) l b)
+    (d d' : Nat) (k k' : ObsKind) (p p' ty ty' : Nat) (f f' : Bool)
+    (hk : isStartK k = true) (hk' : isStartK k' = false)
+    (hq : Q (.obs d k a p ty f)) (hq' : Q (.obs d' k' a p' ty' f')) :
+    Seg cfg Q a ([Ev.obs d k a p ty f] ++ l ++ [Ev.obs d' k' a p' ty' f']) b where
+  bal st := by
+    have h1 : obsStack [Ev.obs d k a p ty f] st = some (a :: st) := by
+      cases k <;> simp_all [obsStack, isStartK]
+    have h2 : obsStack [Ev.obs d' k' a p' ty' f'] (a :: st) = some st := by
+      cases k' <;> simp_all [obsStack, isStartK]
+    rw [obsStack_append, obsStack_append, h1]
+    simp [h.bal, h2]
+  le := by have := h.le; omega
+  sorted := by
+    have h1 : obsStarts [Ev.obs d k a p ty f] = [a] := by
+      cases k <;> simp_all [obsStarts, isStartK]
+    have h2 : obsStarts [Ev.obs d' k' a p' ty' f'] = [] := by
+      cases k' <;> simp_all [obsStarts, isStartK]
+    rw [obsStarts_append, obsStarts_append, h1, h2]
+    simp only [List.append_nil, List.singleton_append, List.pairwise_cons]
+    refine ⟨?_, h.sorted⟩
+    intro x hx; have := h.bnd x hx; omega
+  bnd := by
+    have h1 : obsStarts [Ev.obs d k a p ty f] = [a] := by
+      cases k <;> simp_all [obsStarts, isStartK]
+    have h2 : obsStarts [Ev.obs d' k' a p' ty' f'] = [] := by
+      cases k' <;> simp_all [obsStarts, isStartK]
+    rw [obsStarts_append, obsStarts_append, h1, h2]
+    intro id hid
+    simp only [List.append_nil, List.singleton_append, List.mem_cons] at hid
+    have := h.le
+    rcases hid with rfl | hid
+    · omega
+    · have := h.bnd id hid; omega
+  all := by
+    intro e he
+    simp only [List.singleton_append, List.mem_cons, List.mem_append,
+      List.not_mem_nil, or_false] at he
+    rcases he with (rfl | he) | rfl
+    · exact hq
+    · exact h.all e he
+    · exact hq'
+  noobs := by intro h'; rw [ho] at h'; cases h'
+
+/-- `Seg` wrapped in an optional start/complete pair (present iff observability is configured) -/
+theorem Seg.wrap {cfg : Config} {Q a b l} (h : Seg cfg Q (a + if cfg.obs then 1 else 0) l b)
+    (d d' : Nat) (k k' : ObsKind) (p p' ty ty' : Nat) (f f' : Bool)
+    (hk : isStartK k = true) (hk' : isStartK k' = false)
+    (hq : Q (.obs d k a p ty f)) (hq' : Q (.obs d' k' a p' ty' f')) :
+    Seg cfg Q a ((if cfg.obs then [Ev.obs d k a p ty f] else []) ++ l ++
+      (if cfg.obs then [Ev.obs d' k' a p' ty' f'] else [])) b := by
+  cases ho : cfg.obs
+  · simpa [ho] using h
+  · simp only [ho, if_true] at h ⊢
+    exact Seg.bracket ho h d d' k k' p p' ty ty' f f' hk hk' hq hq'
+
+/-! ### extension of a core state by a segment -/
+
+def Ext (cfg : Config) (Q : Ev → Prop) (c c' : Core) : Prop :=
+  ∃ l, c'.trace = c.trace ++ l ∧ Seg cfg Q c.nextObs l c'.nextObs
+
+theorem Ext.of_eq {cfg Q} {c c' : Core} (ht : c'.trace = c.trace) (hn : c'.nextObs = c.nextObs) :
+    Ext cfg Q c c' :=
+  ⟨[], by simp [ht], by rw [hn]; exact Seg.nil⟩
+
+theorem Ext.refl {cfg Q} {c : Core} : Ext cfg Q c c := Ext.of_eq rfl rfl
+
+theorem Ext.trans {cfg Q} {c₁ c₂ c₃ : Core} (h₁ : Ext cfg Q c₁ c₂) (h₂ : Ext cfg Q c₂ c₃) :
+    Ext cfg Q c₁ c₃ := by
+  obtain ⟨l₁, e₁, s₁⟩ := h₁
+  obtain ⟨l₂, e₂, s₂⟩ := h₂
+  exact ⟨l₁ ++ l₂, by rw [e₂, e₁, List.append_assoc], s₁.append s₂⟩
+
+theorem Ext.mono {cfg Q Q'} {c c' : Core} (h : Ext cfg Q c c') (hq : ∀ e, Q e → Q' e) :
+    Ext cfg Q' c c' := by
+  obtain ⟨l, e, s⟩ := h
+  exact ⟨l, e, s.mono hq⟩
+
+theorem Ext.emit {cfg Q} (c : Core) (e : Ev) (hn : notObs e = true) (hq : Q e) :
+    Ext cfg Q c (c.emit e) :=
+  ⟨[e], Core.trace_emit c e, Seg.single e hn hq⟩
+
+theorem Ext.emitIf {cfg Q} (b : Bool) (c : Core) (e : Ev) (hn : notObs e = true) (hq : Q e) :
+    Ext cfg Q c (emitIf b c e) := by
+  cases b
+  · exact Ext.refl
+  · exact Ext.emit c e hn hq
+
+theorem emitIf_trace (b : Bool) (c : Core) (e : Ev) :
+    (emitIf b c e).trace = c.trace ++ if b then [e] else [] := by
+  cases b <;> simp [emitIf]
+
+theorem emitIf_nextObs (b : Bool) (c : Core) (e : Ev) : (emitIf b c e).nextObs = c.nextObs := by
+  cases b <;> rfl
+
+/-- spans opened at depth `d` (by a synchronous handler start or a persist) are children of `pid` -/
+def ChildOK (d pid : Nat) : Ev → Prop
+  | .obs d' .hs _ p _ async => d' = d → async = false → p = pid
+  | .obs d' .rs _ p _ _ => d' = d → p = pid
+  | _ => True
+
+def QD (d : Nat) (e : Ev) : Prop := d ≤ e.depth
+
+def QP (d pid : Nat) (e : Ev) : Prop := d ≤ e.depth ∧ ChildOK d pid e
+
+theorem QP_of_lt {d p : Nat} {e : Ev} (h : d < e.depth) : QP d p e := by
+  refine ⟨Nat.le_of_lt h, ?_⟩
+  cases e with
+  | obs d' k id p' ty f =>
+    cases k <;> simp only [ChildOK, Ev.depth] at h ⊢ <;> omega
+  | _ => trivial
+
+theorem QP_notObs {d p : Nat} {e : Ev} (hn : notObs e = true) (h : d ≤ e.depth) : QP d p e := by
+  refine ⟨h, ?_⟩
+  cases e <;> first | trivial | simp [notObs] at hn
+
+theorem QP.toQD {d p : Nat} (e : Ev) (h : QP d p e) : QD d e := h.1
+
+/-! ### persist -/
+
+def persistEvs (cfg : Config) (d ty v sid obsParent : Nat) (c : Core) : List Ev :=
+  let fails := c.appendFaults.headD false
+  (if cfg.obs then [Ev.obs d .rs c.nextObs obsParent ty false] else []) ++
+  [Ev.append d sid ty v (!fails) (if fails then 0 else c.log.length + 1)] ++
+  (if cfg.obs then [Ev.obs d .rc c.nextObs 0 ty fails] else []) ++
+  (if (fails && cfg.perrH) then [Ev.perr d ty v false] else [])
+
+theorem persist_trace (cfg : Config) (d ty v : Nat) (obsParent : Nat) (c : Core) (sid : Nat)
+    (hs : cfg.store = some sid) :
+    (persist cfg d ty v false obsParent c).trace = c.trace ++ persistEvs cfg d ty v sid obsParent c ∧
+    (persist cfg d ty v false obsParent c).nextObs = c.nextObs + if cfg.obs then 1 else 0 := by
+  unfold persist persistEvs
+  simp only [hs]
+  cases ho : cfg.obs <;> cases hp : cfg.perrH <;> rcases hf : c.appendFaults with _ | ⟨_ | _, t⟩ <;>
+    simp [Core.trace, Core.emit, emitIf, hf]
+
+theorem Seg.optSingle {cfg Q a} (b : Bool) (e : Ev) (hn : notObs e = true) (hq : Q e) :
+    Seg cfg Q a (if b then [e] else []) a := by
+  cases b
+  · exact Seg.nil
+  · exact Seg.single e hn hq
+
+theorem persist_ext (cfg : Config) (d ty v : Nat) (bad : Bool) (obsParent : Nat) (c : Core) :
+    Ext cfg (QP d obsParent) c (persist cfg d ty v bad obsParent c) := by
+  cases hs : cfg.store with
+  | none =>
+    have : persist cfg d ty v bad obsParent c = c := by simp [persist, hs]
+    rw [this]; exact Ext.refl
+  | some sid =>
+    cases bad with
+    | true =>
+      have : persist cfg d ty v true obsParent c = emitIf cfg.perrH c (.perr d ty v true) := by
+        simp [persist, hs]
+      rw [this]; exact Ext.emitIf _ _ _ rfl (QP_notObs rfl (Nat.le_refl _))
+    | false =>
+      obtain ⟨ht, hn⟩ := persist_trace cfg d ty v obsParent c sid hs
+      refine ⟨_, ht, ?_⟩
+      rw [hn]
+      unfold persistEvs
+      refine Seg.append (Seg.wrap (Seg.single _ rfl ?_) _ _ _ _ _ _ _ _ _ _
+        rfl rfl ?_ ?_) (Seg.optSingle _ _ rfl ?_)
+      all_goals simp [QP, ChildOK, Ev.depth]
+
+/-! ### one level of the semantics -/
+
+section step
+variable {R : Type} (I : RegImpl R) (cfg : Config) (rec : Frame → St R → Action → St R)
+
+/-- the property of the callback carried through `step` -/
+def RecOK : Prop := ∀ fr s a, Ext cfg (QD fr.depth) s.c (rec fr s a).c
+
+/-- `publish` cut in pieces (checked against the model by `publish_eq`) -/
+def pubPre (fr : Frame) (sel : CtxSel) (s : St R) : Nat × Nat × St R :=
+  match sel with
+  | .bg => (0, 0, s)
+  | .fresh => (s.c.nextCtx, 0, { s with c := { s.c with nextCtx := s.c.nextCtx + 1 } })
+  | .dead => (s.c.nextCtx, 0, { s with c := { s.c with nextCtx := s.c.nextCtx + 1, cancelled := s.c.nextCtx :: s.c.cancelled } })
+  | .inherit => if fr.ctxAware then (fr.root, fr.obs, s) else (0, 0, s)
+
+def pubMid (root obs d ty v : Nat) (bad : Bool) (s : St R) : St R :=
+  let s := { s with c := emitIf cfg.hookBL s.c (.hook d .bl ty v) }
+  let s := { s with c := emitIf cfg.hookBC s.c (.hook d .bc ty v) }
+  let s := { s with c := persist cfg d ty v bad obs s.c }
+  let res := (I.get s.reg ty).foldl (deliver cfg rec ty v root obs d) (s, [])
+  let s := if res.2.isEmpty then res.1
+    else { res.1 with reg := I.set res.1.reg ty (retire res.2 (I.get res.1.reg ty)) }
+  let s := { s with c := emitIf cfg.hookAL s.c (.hook d .al ty v) }
+  { s with c := emitIf cfg.hookAC s.c (.hook d .ac ty v) }
+
+def pubStart (d obs0 ty : Nat) (s : St R) : St R :=
+  if cfg.obs then
+    { s with c := { s.c.emit (.obs d .ps s.c.nextObs obs0 ty false) with nextObs := s.c.nextObs + 1 } }
+  else s
+
+def pubTail (d root obs0 ty v : Nat) (bad : Bool) (s : St R) : St R :=
+  let pid := s.c.nextObs
+  let s2 := pubStart cfg d obs0 ty s
+  let s9 := pubMid I cfg rec root (if cfg.obs then pid else obs0) d ty v bad s2
+  { s9 with c := emitIf cfg.obs s9.c (.obs d .pc pid 0 ty false) }
+
+theorem publish_eq (fr : Frame) (ty v : Nat) (bad : Bool) (sel : CtxSel) (s : St R) :
+    publish I cfg rec fr ty v bad sel s =
+      pubTail I cfg rec fr.depth (pubPre fr sel s).1 (pubPre fr sel s).2.1 ty v bad (pubPre fr sel s).2.2 := by
+  cases sel
+  case inherit =>
+    unfold publish pubTail pubMid pubPre pubStart
+    cases fr.ctxAware <;> rfl
+  all_goals rfl
+
+theorem pubPre_c (fr : Frame) (sel : CtxSel) (s : St R) :
+    (pubPre fr sel s).2.2.c.trace = s.c.trace ∧ (pubPre fr sel s).2.2.c.nextObs = s.c.nextObs := by
+  cases sel
+  case inherit =>
+    unfold pubPre
+    cases fr.ctxAware <;> exact ⟨rfl, rfl⟩
+  all_goals exact ⟨rfl, rfl⟩
+
+variable {cfg rec}
+
+theorem runBody_ext (h : RecOK cfg rec) (fr : Frame) (s : St R) (acts : List Action) :
+    Ext cfg (QD fr.depth) s.c (runBody rec fr s acts).c := by
+  unfold runBody
+  induction acts generalizing s with
+  | nil => exact Ext.refl
+  | cons a as ih =>
+    simp only [List.foldl_cons]
+    refine Ext.trans ?_ (ih _)
+    split
+    · exact Ext.refl
+    · exact h fr s a
+
+theorem enterHandler_trace (r : Reg) (ty v root op d : Nat) (async : Bool) (s : St R) :
+    (enterHandler cfg r ty v root op d async s).1.c.trace =
+      s.c.trace ++ (if cfg.obs then [Ev.obs d .hs s.c.nextObs op ty async] else []) ++
+        [Ev.enter (d + 1) r.rid ty v (if r.ctxAware then some root else none) async] ∧
+    (enterHandler cfg r ty v root op d async s).1.c.nextObs =
+      s.c.nextObs + if cfg.obs then 1 else 0 := by
+  unfold enterHandler
+  cases cfg.obs <;> simp [Core.trace, Core.emit]
+
+theorem bodyResult_shape (h : RecOK cfg rec) (r : Reg) (ty v root op d : Nat) (async : Bool) (s : St R) :
+    ∃ l, (bodyResult cfg rec r ty v root op d async s).c.trace =
+        s.c.trace ++ (if cfg.obs then [Ev.obs d .hs s.c.nextObs op ty async] else []) ++ l ∧
+      Seg cfg (QD (d + 1)) (s.c.nextObs + if cfg.obs then 1 else 0) l
+        (bodyResult cfg rec r ty v root op d async s).c.nextObs := by
+  obtain ⟨ht, hn⟩ := enterHandler_trace (cfg := cfg) r ty v root op d async s
+  obtain ⟨l, hl, hs⟩ := runBody_ext h
+    { depth := d + 1, root := root, obs := (enterHandler cfg r ty v root op d async s).2, ctxAware := r.ctxAware }
+    (enterHandler cfg r ty v root op d async s).1 (cfg.bodies.getD r.body [])
+  have hb : bodyResult cfg rec r ty v root op d async s = runBody rec
+    { depth := d + 1, root := root, obs := (enterHandler cfg r ty v root op d async s).2, ctxAware := r.ctxAware }
+    (enterHandler cfg r ty v root op d async s).1 (cfg.bodies.getD r.body []) := rfl
+  refine ⟨[Ev.enter (d + 1) r.rid ty v (if r.ctxAware then some root else none) async] ++ l, ?_, ?_⟩
+  · rw [hb, hl, ht]; simp
+  · rw [hb]
+    rw [hn] at hs
+    exact Seg.append (Seg.single _ rfl (by simp [QD, Ev.depth])) hs
+
+theorem callHandler_trace (r : Reg) (ty v root op d : Nat) (async : Bool) (s : St R) :
+    (callHandler cfg rec r ty v root op d async s).c.trace =
+      (bodyResult cfg rec r ty v root op d async s).c.trace ++
+        ([Ev.exit (d + 1) r.rid] ++
+        (match (bodyResult cfg rec r ty v root op d async s).c.panicking with
+          | some val => if cfg.panicH then [Ev.panich d r.ctxAware ty v val] else []
+          | none => [])) ++
+        (if cfg.obs then [Ev.obs d .hc s.c.nextObs 0 ty
+          (bodyResult cfg rec r ty v root op d async s).c.panicking.isSome] else []) ∧
+    (callHandler cfg rec r ty v root op d async s).c.nextObs =
+      (bodyResult cfg rec r ty v root op d async s).c.nextObs := by
+  unfold callHandler
+  simp only []
+  cases hp : (bodyResult cfg rec r ty v root op d async s).c.panicking <;> cases cfg.panicH <;>
+    cases cfg.obs <;> simp [Core.trace, Core.emit, emitIf, hp]
+
+theorem callHandler_shape (h : RecOK cfg rec) (r : Reg) (ty v root op d : Nat) (async : Bool) (s : St R) :
+    ∃ l, (callHandler cfg rec r ty v root op d async s).c.trace =
+        s.c.trace ++ ((if cfg.obs then [Ev.obs d .hs s.c.nextObs op ty async] else []) ++ l ++
+        (if cfg.obs then [Ev.obs d .hc s.c.nextObs 0 ty
+          (bodyResult cfg rec r ty v root op d async s).c.panicking.isSome] else [])) ∧
+      Seg cfg (QP d op) (s.c.nextObs + if cfg.obs then 1 else 0) l
+        (callHandler cfg rec r ty v root op d async s).c.nextObs := by
+  obtain ⟨l, hl, hs⟩ := bodyResult_shape h r ty v root op d async s
+  obtain ⟨ht, hn⟩ := callHandler_trace (cfg := cfg) (rec := rec) r ty v root op d async s
+  refine ⟨l ++ ([Ev.exit (d + 1) r.rid] ++
+        (match (bodyResult cfg rec r ty v root op d async s).c.panicking with
+          | some val => if cfg.panicH then [Ev.panich d r.ctxAware ty v val] else []
+          | none => [])), ?_, ?_⟩
+  · rw [ht, hl]; simp
+  · rw [hn]
+    refine Seg.append (hs.mono fun e he => QP_of_lt he) (Seg.append (Seg.single _ rfl ?_) ?_)
+    · simp [QP, ChildOK, Ev.depth]
+    · split
+      · exact Seg.optSingle _ _ rfl (by simp [QP, ChildOK, Ev.depth])
+      · exact Seg.nil
+
+theorem callHandler_ext (h : RecOK cfg rec) (r : Reg) (ty v root op d : Nat) (async : Bool) (s : St R) :
+    Ext cfg (QP d op) s.c (callHandler cfg rec r ty v root op d async s).c := by
+  obtain ⟨l, hl, hs⟩ := callHandler_shape h r ty v root op d async s
+  refine ⟨_, hl, Seg.wrap hs _ _ _ _ _ _ _ _ _ _ rfl rfl ?_ ?_⟩
+  all_goals simp [QP, ChildOK, Ev.depth]
+
+theorem deliver_ext (h : RecOK cfg rec) (ty v root obs d : Nat) (acc : St R × List Reg) (r : Reg) :
+    Ext cfg (QP d obs) acc.1.c (deliver cfg rec ty v root obs d acc r).1.c := by
+  obtain ⟨s, claimed⟩ := acc
+  have hq : QP d obs (Ev.filt d r.rid v (r.accepts v)) := by simp [QP, ChildOK, Ev.depth]
+  unfold deliver
+  cases ho : r.once <;> cases hf : r.filt <;>
+    simp only [Bool.false_eq_true, ↓reduceIte, Bool.false_and, Bool.true_and] <;> repeat' split
+  all_goals first
+    | exact Ext.of_eq rfl rfl
+    | (refine Ext.trans ?_ (callHandler_ext h _ _ _ _ _ _ _ _); exact Ext.of_eq rfl rfl)
+    | (refine Ext.trans (Ext.emit s.c _ rfl hq) ?_; exact Ext.of_eq rfl rfl)
+    | (refine Ext.trans (Ext.emit s.c _ rfl hq) ?_
+       refine Ext.trans ?_ (callHandler_ext h _ _ _ _ _ _ _ _); exact Ext.of_eq rfl rfl)
+    | trace_state
+
+theorem loop_ext (h : RecOK cfg rec) (ty v root obs d : Nat) (hs : List Reg) (acc : St R × List Reg) :
+    Ext cfg (QP d obs) acc.1.c (hs.foldl (deliver cfg rec ty v root obs d) acc).1.c := by
+  induction hs generalizing acc with
+  | nil => exact Ext.refl
+  | cons r rs ih => exact Ext.trans (deliver_ext h ty v root obs d acc r) (ih _)
+
+theorem pubMid_ext (h : RecOK cfg rec) (root obs d ty v : Nat) (bad : Bool) (s : St R) :
+    Ext cfg (QP d obs) s.c (pubMid I cfg rec root obs d ty v bad s).c := by
+  have hq : ∀ k, QP d obs (Ev.hook d k ty v) := fun k => by simp [QP, ChildOK, Ev.depth]
+  let s1 : St R := { s with c := emitIf cfg.hookBL s.c (.hook d .bl ty v) }
+  let s2 : St R := { s1 with c := emitIf cfg.hookBC s1.c (.hook d .bc ty v) }
+  let s3 : St R := { s2 with c := persist cfg d ty v bad obs s2.c }
+  let res := (I.get s3.reg ty).foldl (deliver cfg rec ty v root obs d) (s3, [])
+  let s4 : St R := if res.2.isEmpty then res.1
+    else { res.1 with reg := I.set res.1.reg ty (retire res.2 (I.get res.1.reg ty)) }
+  let s5 : St R := { s4 with c := emitIf cfg.hookAL s4.c (.hook d .al ty v) }
+  have h1 : Ext cfg (QP d obs) s.c s1.c := Ext.emitIf _ _ _ rfl (hq _)
+  have h2 : Ext cfg (QP d obs) s1.c s2.c := Ext.emitIf _ _ _ rfl (hq _)
+  have h3 : Ext cfg (QP d obs) s2.c s3.c := persist_ext cfg d ty v bad obs _
+  have h4 : Ext cfg (QP d obs) s3.c res.1.c := loop_ext h ty v root obs d _ (s3, [])
+  have h5 : Ext cfg (QP d obs) res.1.c s4.c := by
+    show Ext _ _ _ (St.c (if _ then _ else _))
+    split <;> exact Ext.refl
+  have h6 : Ext cfg (QP d obs) s4.c s5.c := Ext.emitIf _ _ _ rfl (hq _)
+  have h7 : Ext cfg (QP d obs) s5.c (pubMid I cfg rec root obs d ty v bad s).c :=
+    Ext.emitIf cfg.hookAC s5.c (.hook d .ac ty v) rfl (hq _)
+  exact h1.trans (h2.trans (h3.trans (h4.trans (h5.trans (h6.trans h7)))))
+
+theorem pubStart_c (d obs0 ty : Nat) (s : St R) :
+    (pubStart cfg d obs0 ty s).c.trace =
+      s.c.trace ++ (if cfg.obs then [Ev.obs d .ps s.c.nextObs obs0 ty false] else []) ∧
+    (pubStart cfg d obs0 ty s).c.nextObs = s.c.nextObs + if cfg.obs then 1 else 0 := by
+  unfold pubStart
+  cases cfg.obs <;> simp [Core.trace, Core.emit]
+
+theorem pubTail_shape (h : RecOK cfg rec) (d root obs0 ty v : Nat) (bad : Bool) (s : St R) :
+    ∃ l, (pubTail I cfg rec d root obs0 ty v bad s).c.trace =
+        s.c.trace ++ ((if cfg.obs then [Ev.obs d .ps s.c.nextObs obs0 ty false] else []) ++ l ++
+          (if cfg.obs then [Ev.obs d .pc s.c.nextObs 0 ty false] else [])) ∧
+      Seg cfg (QP d (if cfg.obs then s.c.nextObs else obs0)) (s.c.nextObs + if cfg.obs then 1 else 0) l
+        (pubTail I cfg rec d root obs0 ty v bad s).c.nextObs := by
+  obtain ⟨ht, hn⟩ := pubStart_c (cfg := cfg) d obs0 ty s
+  obtain ⟨l, hl, hs⟩ := pubMid_ext (I := I) h root (if cfg.obs then s.c.nextObs else obs0) d ty v bad
+    (pubStart cfg d obs0 ty s)
+  refine ⟨l, ?_, ?_⟩
+  · show (emitIf cfg.obs _ _).trace = _
+    rw [emitIf_trace, hl, ht]; simp
+  · show Seg _ _ _ _ (emitIf cfg.obs _ _).nextObs
+    rw [emitIf_nextObs, ← hn]; exact hs
+
+theorem pubTail_ext (h : RecOK cfg rec) (d root obs0 ty v : Nat) (bad : Bool) (s : St R) :
+    Ext cfg (QD d) s.c (pubTail I cfg rec d root obs0 ty v bad s).c := by
+  obtain ⟨l, hl, hs⟩ := pubTail_shape (I := I) h d root obs0 ty v bad s
+  refine ⟨_, hl, Seg.wrap (hs.mono QP.toQD) _ _ _ _ _ _ _ _ _ _ rfl rfl ?_ ?_⟩
+  all_goals simp [QD, Ev.depth]
+
+theorem publish_ext (h : RecOK cfg rec) (fr : Frame) (ty v : Nat) (bad : Bool) (sel : CtxSel) (s : St R) :
+    Ext cfg (QD fr.depth) s.c (publish I cfg rec fr ty v bad sel s).c := by
+  rw [publish_eq]
+  obtain ⟨ht, hn⟩ := pubPre_c fr sel s
+  exact Ext.trans (Ext.of_eq ht hn) (pubTail_ext I h _ _ _ _ _ _ _)
+
+theorem runPending_ext (h : RecOK cfg rec) (p : Pending) (s : St R) :
+    Ext cfg (QD 0) s.c (runPending cfg rec p s).c := by
+  unfold runPending
+  split
+  · exact Ext.refl
+  · exact (callHandler_ext h _ _ _ _ _ _ _ _).mono fun e _ => Nat.zero_le _
+
+theorem step_ext (h : RecOK cfg rec) : RecOK cfg (step I cfg rec) := by
+  intro fr s a
+  have hq : ∀ e : Ev, e.depth = fr.depth → QD fr.depth e := fun e he => by simp [QD, he]
+  cases a <;> simp only [step]
+  case drain =>
+    split
+    · exact Ext.refl
+    · rename_i hd
+      have hd0 : fr.depth = 0 := by simpa using hd
+      split
+      · exact Ext.refl
+      · refine Ext.trans (Ext.trans (Ext.of_eq rfl rfl) ?_) (h fr _ .drain)
+        rw [hd0]
+        exact runPending_ext h _ _
+  case publish =>
+    split
+    · exact Ext.emit _ _ rfl (hq _ rfl)
+    · exact publish_ext I h _ _ _ _ _ _
+  all_goals first
+    | exact Ext.of_eq rfl rfl
+    | exact Ext.emit _ _ rfl (hq _ rfl)
+    | (split <;> first | exact Ext.of_eq rfl rfl | exact Ext.emit _ _ rfl (hq _ rfl))
+
+end step
+
+theorem exec_ext {R : Type} (I : RegImpl R) (cfg : Config) (n : Nat) : RecOK cfg (exec I cfg n) := by
+  induction n with
+  | zero => intro fr s a; exact Ext.of_eq rfl rfl
+  | succ n ih => intro fr s a; exact step_ext I ih fr s a
+
+theorem newTrace_of_append {R R' : Type} {s : St R} {s' : St R'} {l : List Ev}
+    (h : s'.c.trace = s.c.trace ++ l) : newTrace s s' = l := by
+  simp [newTrace, h]
+
+theorem run_ext {R : Type} (I : RegImpl R) (cfg : Config) (fuel : Nat) (prog : List Action) (s : St R) :
+    Ext cfg (QD 0) s.c (prog.foldl (fun s a => exec I cfg fuel {} s a) s).c := by
+  induction prog generalizing s with
+  | nil => exact Ext.refl
+  | cons a as ih => exact Ext.trans (exec_ext I cfg fuel {} s a) (ih _)
+
+theorem run_seg {R : Type} (I : RegImpl R) (cfg : Config) (fuel : Nat) (faults : List Bool)
+    (prog : List Action) :
+    Seg cfg (QD 0) 1 (run I cfg fuel faults prog).c.trace (run I cfg fuel faults prog).c.nextObs := by
+  obtain ⟨l, hl, hs⟩ := run_ext I cfg fuel prog (initSt I faults)
+  have h0 : (initSt I faults).c.trace = [] := rfl
+  rw [h0, List.nil_append] at hl
+  unfold run
+  rw [hl]
+  exact hs
+/-! ### the theorems -/
+
 /-- whatever one API call appends to the trace is balanced and properly nested: processed
 against ANY stack of open spans it ends with the same stack — every start has its complete,
 each complete carries the id its start returned, pairs nest -/
 theorem obs_balanced_exec {R : Type} (I : RegImpl R) (cfg : Config) (n : Nat) (fr : Frame) (s : St R)
     (a : Action) (st : List Nat) :
     obsStack (newTrace s (exec I cfg n fr s a)) st = some st := by
-  sorry
+  obtain ⟨l, hl, hs⟩ := exec_ext I cfg n fr s a
+  rw [newTrace_of_append hl]
+  exact hs.bal st
 
 theorem obs_balanced_run {R : Type} (I : RegImpl R) (cfg : Config) (fuel : Nat) (faults : List Bool)
     (prog : List Action) :
-    obsStack (run I cfg fuel faults prog).c.trace [] = some [] := by
-  sorry
+    obsStack (run I cfg fuel faults prog).c.trace [] = some [] :=
+  (run_seg I cfg fuel faults prog).bal []
 
 /-- span ids are never reused: the ids started in a run are pairwise distinct -/
 theorem obs_ids_fresh {R : Type} (I : RegImpl R) (cfg : Config) (fuel : Nat) (faults : List Bool)
     (prog : List Action) :
-    (obsStarts (run I cfg fuel faults prog).c.trace).Nodup := by
-  sorry
+    (obsStarts (run I cfg fuel faults prog).c.trace).Nodup :=
+  (run_seg I cfg fuel faults prog).sorted.imp fun h => Nat.ne_of_lt h
 
 /-- one handler invocation: OnHandlerStart first (child of the context it was given), then the
 handler, OnHandlerComplete last with the same span and `err ≠ nil` exactly when it panicked -/
@@ -32,7 +549,11 @@ theorem callHandler_obs {R : Type} (I : RegImpl R) (cfg : Config) (n : Nat) (r :
     ∃ mid, newTrace s s' =
       [Ev.obs d .hs s.c.nextObs obsParent ty async] ++ mid ++
       [Ev.obs d .hc s.c.nextObs 0 ty (bodyResult cfg (exec I cfg n) r ty v root obsParent d async s).c.panicking.isSome] := by
-  sorry
+  intro s'
+  obtain ⟨l, hl, -⟩ := callHandler_shape (exec_ext I cfg n) r ty v root obsParent d async s
+  refine ⟨l, ?_⟩
+  rw [newTrace_of_append hl]
+  simp [hobs]
 
 /-- one persist: OnPersistStart/Complete exactly around an append attempt (none for an
 unencodable event), child of the publish span, `err ≠ nil` exactly when the append failed -/
@@ -43,7 +564,24 @@ theorem persist_obs (cfg : Config) (d ty v : Nat) (bad : Bool) (obsParent : Nat)
     (bad = false → ∃ ok off rest, c'.trace.drop c.trace.length =
         [Ev.obs d .rs c.nextObs obsParent ty false, Ev.append d sid ty v ok off,
          Ev.obs d .rc c.nextObs 0 ty (!ok)] ++ rest ∧ ∀ e ∈ rest, (match e with | .obs .. => false | _ => true) = true) := by
-  sorry
+  intro c'
+  refine ⟨?_, ?_⟩
+  · rintro rfl
+    have : c' = emitIf cfg.perrH c (.perr d ty v true) := by
+      simp [c', persist, hstore]
+    rw [this, emitIf_trace]
+    cases cfg.perrH <;> simp
+  · rintro rfl
+    obtain ⟨ht, -⟩ := persist_trace cfg d ty v obsParent c sid hstore
+    refine ⟨!(c.appendFaults.headD false), if c.appendFaults.headD false then 0 else c.log.length + 1,
+      if (c.appendFaults.headD false && cfg.perrH) then [Ev.perr d ty v false] else [], ?_, ?_⟩
+    · show (persist cfg d ty v false obsParent c).trace.drop _ = _
+      rw [ht]
+      simp [persistEvs, hobs]
+    · intro e he
+      split at he
+      · simp only [List.mem_singleton] at he; subst he; rfl
+      · simp at he
 
 /-- one publish: OnPublishStart is the first event and OnPublishComplete the last one, with the
 same span; the spans opened in between at this depth are children of the publish span -/
@@ -56,12 +594,28 @@ theorem publish_obs {R : Type} (I : RegImpl R) (cfg : Config) (n : Nat) (fr : Fr
         | .obs d' .hs _ p _ async => d' = fr.depth → async = false → p = s.c.nextObs
         | .obs d' .rs _ p _ _ => d' = fr.depth → p = s.c.nextObs
         | _ => True) := by
-  sorry
+  intro s'
+  obtain ⟨ht, hn⟩ := pubPre_c fr sel s
+  obtain ⟨l, hl, hs⟩ := pubTail_shape (I := I) (exec_ext I cfg n) fr.depth (pubPre fr sel s).1
+    (pubPre fr sel s).2.1 ty v bad (pubPre fr sel s).2.2
+  rw [← publish_eq, ht, hn] at hl
+  refine ⟨(pubPre fr sel s).2.1, l, ?_, ?_⟩
+  · rw [newTrace_of_append hl]
+    simp [hobs]
+  · intro e he
+    have := (hs.all e he).2
+    rw [hn] at this
+    simp only [hobs, if_true] at this
+    cases e with
+    | obs d' k id p ty' f => cases k <;> first | trivial | exact this
+    | _ => trivial
 
 /-- without an Observability no callback event is ever produced -/
 theorem no_obs_no_events {R : Type} (I : RegImpl R) (cfg : Config) (fuel : Nat) (faults : List Bool)
     (prog : List Action) (hobs : cfg.obs = false) :
     ∀ e ∈ (run I cfg fuel faults prog).c.trace, (match e with | .obs .. => false | _ => true) = true := by
-  sorry
+  intro e he
+  have := (run_seg I cfg fuel faults prog).noobs hobs e he
+  cases e <;> first | rfl | simp [notObs] at this
 
 end Ebu.Bus
